@@ -100,6 +100,11 @@ def junk_frames(uni, rnd, tier):
     seqs = [[r1, r1], [r1, r2, r1], [r1, ["CLOSE", "jsub"], r1], [r1, ["CLOSE", "jsub"], ["CLOSE", "jsub"]], [["CLOSE", "jsub"], ["CLOSE", "jsub"]],
             [["EVENT", ev], ["EVENT", ev]], [r1, ["EVENT", ev], r1, ["EVENT", ev]], [r1, ["REQ", "jsub", None], r1],
             [["REQ", "jsub%d" % k, {"kinds": [1]}] for k in range(6)] + [["REQ", "jsub0", {"kinds": [7]}]], [["AUTH", ev], ["AUTH", ev]]]
+    # subscription ids that are legal strings but falsy or odd for a program: the empty string, "0", blanks, a very long one.
+    # The connection ends (after the probes) with that subscription still open.
+    for odd in ("", "0", " ", "null", "x" * 300):
+        seqs.append([["REQ", odd, {"kinds": [1]}]])
+        seqs.append([["REQ", odd, {"kinds": [1]}], ["REQ", "jsub", {"kinds": [7]}], ["CLOSE", odd], ["REQ", odd, {"kinds": [1], "limit": 1}]])
     texts += [SEQ_SEP.join(J(f) for f in sq) for sq in seqs]
     # the same hostile (correctly signed) event many times over, and a run of different ones: whatever a single such event
     # costs the relay (a slot, a task, a lock, a queue entry) must not add up until later commands go unanswered
@@ -153,7 +158,8 @@ def _worker(payload):
     from .. import relaydrv, storedrv
 
     uni = universe()
-    sid_map = {"w1": "well1", "w2": "well2", "w3": "well3", "p1": "probe1", "jsub": "jsub"}
+    sid_map = {"w1": "well1", "w2": "well2", "w3": "well3", "p1": "probe1", "jsub": "jsub", "odd0": "", "odd1": "0", "odd2": " ",
+               "odd3": "null", "odd4": "x" * 300}
 
     def schedule(junk, zero_continues):
         s = [("open", 0), ("open", 1), ("msg", 1, {"m": "REQ", "sid": "w1", "fs": [{"kinds": [1]}]}), ("idle",),
